@@ -9,7 +9,7 @@
 #define VF_LOGN 512
 extern u64 vf_log[VF_LOGN]; extern int vf_nlog;
 #ifdef __CPROVER__
-#define VF_ASSERT(c, msg) __CPROVER_assert((c), msg)
+#define VF_ASSERT(c, msg) VF_CHK(c, msg)
 #define VF_REQUIRE(c) __CPROVER_assume(c)
 #define VF_OBS(x) ((void)0)
 #ifdef WITNESS
@@ -17,7 +17,16 @@ extern u64 vf_log[VF_LOGN]; extern int vf_nlog;
 #else
 #define VF_WITNESS() ((void)0)
 #endif
-static inline u64 vf_nd64(void) { u64 v = nondet_u64(); if (vf_nlog < VF_LOGN) vf_log[vf_nlog] = v; vf_nlog++; return v; }
+/* every input goes through vf_nd64.  In the trace-extraction run (-DVF_TRACE) a rotating checksum of all
+ * inputs is made part of every assertion's cone of influence, so --slice-formula keeps the
+ * `vf_ndv = nondet` steps and the trace lists the inputs in call order. */
+static inline u64 vf_nd64(void) {
+  u64 vf_ndv = nondet_u64();
+#ifdef VF_TRACE
+  vf_sum = ((vf_sum << 7) | (vf_sum >> 57)) ^ vf_ndv;
+#endif
+  return vf_ndv;
+}
 #else
 #include <setjmp.h>
 extern jmp_buf vf_jb; extern int vf_assert_failed;
